@@ -85,11 +85,12 @@ type gen struct {
 	vars  []vinfo
 	funcs []fninfo
 
-	lvl       int  // 0 = module level
-	loops     int  // loop nesting inside the current function / module
-	nest      bool // the next loop is the outer loop of a nestedLoopStmt
-	forceExit bool // the next loop gets a break / continue in its body
-	ctl       int  // block nesting inside the current function / module
+	lvl       int    // 0 = module level
+	loops     int    // loop nesting inside the current function / module
+	nest      bool   // the next loop is the outer loop of a nestedLoopStmt
+	cands     []Call // module-level functions the host may call after initialisation
+	forceExit bool   // the next loop gets a break / continue in its body
+	ctl       int    // block nesting inside the current function / module
 	iter      []int
 	iterAny   int
 	ret       typ
@@ -1630,12 +1631,34 @@ func (g *gen) defFunc() {
 	fi.cost = g.cost + 2
 	g.lvl, g.cur, g.cost = 0, nil, 0
 	g.funcs = append(g.funcs, fi)
+	g.addCand(fi.name, fi.params)
 }
 
 // recFunc emits a recursive module-level function (in the fragment).
+// addCand records a function that can be entered from Go with scalar arguments.
+func (g *gen) addCand(name string, params []typ) {
+	c := Call{Fn: name, Args: []CallArg{}}
+	for _, t := range params {
+		switch t {
+		case tInt:
+			c.Args = append(c.Args, CallArg{T: "int", V: fmt.Sprint(g.r.Intn(5))})
+		case tStr:
+			c.Args = append(c.Args, CallArg{T: "str", V: hx.Pick(g.r, strPool)})
+		case tBool:
+			c.Args = append(c.Args, CallArg{T: "bool", V: fmt.Sprint(g.chance(50))})
+		case tNone:
+			c.Args = append(c.Args, CallArg{T: "none"})
+		default:
+			return // container arguments are not passed from the host
+		}
+	}
+	g.cands = append(g.cands, c)
+}
+
 func (g *gen) recFunc() {
 	g.tag("recursion")
 	name := g.freshF()
+	defer func() { g.addCand(name, []typ{tInt, tInt}) }()
 	n, acc := g.freshL(), g.freshL()
 	g.line("def %s(%s, %s):", name, n, acc)
 	g.ind++
@@ -1655,6 +1678,9 @@ func (g *gen) recFunc() {
 	}
 	g.ind--
 	depth := 1 + g.r.Intn(4)
+	if !g.o.Recursion && g.chance(70) {
+		depth = 0 // no re-entry at module level: the host enters the function later (see cands)
+	}
 	v := g.freshG()
 	g.line("%s = %s(%d, %d)", v, name, depth, g.r.Intn(5))
 	g.vars = append(g.vars, vinfo{name: v, t: tInt})
@@ -1822,7 +1848,7 @@ func generate(r *hx.Rand, id int, fragPct int) *Out {
 				g.callFunc(f)
 			}
 		case c < 36:
-			if g.o.Recursion || g.chance(15) {
+			if g.o.Recursion || g.chance(60) {
 				g.recFunc()
 			} else {
 				g.stmt(3)
@@ -1852,12 +1878,21 @@ func generate(r *hx.Rand, id int, fragPct int) *Out {
 		}
 	}
 
+	// entries through the Go API after initialisation (starlark.Call on an idle thread)
+	var calls []Call
+	if len(g.cands) > 0 && g.chance(60) {
+		g.tag("host-call")
+		k := 1 + g.r.Intn(2)
+		for i := 0; i < k; i++ {
+			calls = append(calls, g.cands[g.r.Intn(len(g.cands))])
+		}
+	}
 	feats := make([]string, 0, len(g.feats))
 	for k := range g.feats {
 		feats = append(feats, k)
 	}
 	sort.Strings(feats)
-	return &Out{ID: id, Src: g.sb.String(), Opts: g.o, Features: feats, Fragment: claimFragment}
+	return &Out{ID: id, Src: g.sb.String(), Opts: g.o, Features: feats, Fragment: claimFragment, Calls: calls}
 }
 
 // injectStaticError makes the program (usually) statically invalid.
